@@ -10,6 +10,11 @@ import (
 //	which 0: QuoteSQLString, 1: QuoteSQLBytes, 2: QuoteSQLIdent
 func verifHarness_C15(n, which int) {
 	s := verifBytes(n)
+	verifC15(s, which)
+}
+
+func verifC15(s string, which int) {
+	n := len(s)
 	var q string
 	var kind token.TokenKind
 	switch which {
@@ -69,4 +74,17 @@ func verifWhich(which int) string {
 		return "QuoteSQLBytes"
 	}
 	return "QuoteSQLIdent"
+}
+
+// C15 over every Unicode code point: s is the UTF-8 encoding of one symbolic
+// rune (surrogates excluded: they have no encoding), optionally surrounded by
+// an ASCII letter on each side.
+func verifHarness_C15_rune(which, pad int) {
+	r := rune(verifChoice(0x110000))
+	verifAssume(r < 0xD800 || r > 0xDFFF)
+	s := string(r)
+	if pad == 1 {
+		s = "a" + s + "b"
+	}
+	verifC15(s, which)
 }
